@@ -360,11 +360,12 @@ COQ_FLAGS = ["-Q", os.path.join(COQ, "theories"), "Dasp", "-Q", os.path.join(COQ
              "-w", "-notation-overridden,-deprecated-hint-without-locality,-deprecated-instance-without-locality,-ambiguous-paths"]
 
 
-def coq_check_cases(tag, header, check_fn, cases, shards=NCPU, per_file=400, timeout=1500):
+def coq_check_cases(tag, header, check_fn, cases, shards=NCPU, per_file=150, timeout=1500):
     """cases: list of Coq terms (strings), each of the type check_fn expects;
     check_fn : case -> bool (true = the model agrees with the observation embedded in the case).
     Evaluates them inside coqc with vm_compute and returns the sorted list of failing indices.
-    `header` = Require lines."""
+    `header` = Require lines.  A coqc process that dies without a Coq error (e.g. killed for
+    memory on a loaded machine) is retried once in four smaller pieces."""
     # the model files named in the header may lie outside the closure of props/Cxx.v: build them
     targets = []
     for lib, mods in re.findall(r"From\s+(Dasp|DaspGen)\s+Require\s+(?:Import\s+|Export\s+)?([^\n]*?)\.\s*(?:\n|$)", header + "\n"):
@@ -377,12 +378,14 @@ def coq_check_cases(tag, header, check_fn, cases, shards=NCPU, per_file=400, tim
     d = ensure_dir(os.path.join(OUT, "cases", tag))
     for f in glob.glob(os.path.join(d, "*")):
         os.remove(f)
+    if not cases:
+        return [], []
     nfiles = max(1, min(max(shards, (len(cases) + per_file - 1) // per_file), len(cases)))
-    step = (len(cases) + nfiles - 1) // nfiles if cases else 1
-    jobs = []
-    for k in range(0, len(cases), step):
-        part = cases[k:k + step]
-        name = f"cases_{k}"
+    step = (len(cases) + nfiles - 1) // nfiles
+    jobs = [(k, cases[k:k + step]) for k in range(0, len(cases), step)]
+
+    def run_one(k, part, suffix=""):
+        name = f"cases_{k}{suffix}"
         body = [header, "Require Import List ZArith NArith. Import ListNotations.",
                 "Open Scope Z_scope.",
                 f"Definition the_cases := [\n" + ";\n".join(part) + "\n].",
@@ -392,23 +395,37 @@ def coq_check_cases(tag, header, check_fn, cases, shards=NCPU, per_file=400, tim
                 "Eval vm_compute in the_bad."]
         with open(os.path.join(d, name + ".v"), "w") as f:
             f.write("\n".join(body) + "\n")
-        jobs.append(name)
-
-    def run(name):
         rc, out = sh(["timeout", str(timeout), "coqc", "-noglob"] + COQ_FLAGS + [name + ".v"], cwd=d)
-        return name, rc, out
+        if rc != 0:
+            return None, (name, out[-3000:]), ("Error" in out)
+        m = re.search(r"=\s*(\[.*?\])\s*:\s*list N", out, re.S)
+        if not m:
+            return None, (name, "unparsable coqc output:\n" + out[-2000:]), True
+        return [int(x) for x in re.findall(r"(\d+)%N", m.group(1))], None, False
+
+    def run(job):
+        k, part = job
+        bad, err, is_coq_error = run_one(k, part)
+        if err is None:
+            return bad, []
+        if is_coq_error or len(part) < 2:
+            return [], [err]
+        # died without a Coq error: retry in four pieces, sequentially
+        q = (len(part) + 3) // 4
+        bads, errs = [], []
+        for j in range(0, len(part), q):
+            b2, e2, _ = run_one(k + j, part[j:j + q], suffix="_r")
+            if e2 is None:
+                bads += b2
+            else:
+                errs.append(e2)
+        return bads, errs
 
     bad, errors = [], []
     with ThreadPoolExecutor(max_workers=min(NCPU, max(1, len(jobs)))) as ex:
-        for name, rc, out in ex.map(run, jobs):
-            if rc != 0:
-                errors.append((name, out[-3000:]))
-                continue
-            m = re.search(r"=\s*(\[.*?\])\s*:\s*list N", out, re.S)
-            if not m:
-                errors.append((name, "unparsable coqc output:\n" + out[-2000:]))
-                continue
-            bad += [int(x) for x in re.findall(r"(\d+)%N", m.group(1))]
+        for b, e in ex.map(run, jobs):
+            bad += b
+            errors += e
     return sorted(bad), errors
 
 
@@ -514,7 +531,7 @@ def norm_obs_line(line):
     return parse_obs_line(line)
 
 
-def correspond(binpath, items, header, check_fn, tag, args=()):
+def correspond(binpath, items, header, check_fn, tag, args=(), per_file=150):
     """items: list of dicts with 'line' (harness input) and 'coq' (Coq term of the case,
     without the observation). Runs the implementation, then the model inside coqc.
     Returns (obs_lines, bad_indices, errors)."""
@@ -530,7 +547,7 @@ def correspond(binpath, items, header, check_fn, tag, args=()):
         except ValueError:
             errors.append(("harness", f"unparsable observation line {o[:200]!r} for {it['line'][:200]!r}"))
             return outl, [], errors
-    bad, cerrs = coq_check_cases(tag, header, check_fn, terms)
+    bad, cerrs = coq_check_cases(tag, header, check_fn, terms, per_file=per_file)
     return outl, bad, errors + cerrs
 
 
